@@ -15,7 +15,7 @@ EXPLANATION = (
     "built without that dependence cannot be symmetric) and on f64::is_nan of the weight (an unweighted edge must become 1, not NaN).  "
     "R-C09-3 degree_centrality depends on get_node_degree and the node count and the division is guarded by n <= 1.  R-C09-4 the "
     "self-loop correction of get_node_degree / get_node_weighted_degree depends on specs.directed inside the function itself "
-    "(get_edges_for_node lists a directed self-loop twice and an undirected one once, so one correction cannot fit both).  NOT decided: "
+    "(get_edges_for_node lists a directed self-loop twice and an undirected one once, so one correction cannot fit both).  R-C09-9 the self-loop correction is a count / sum over the node's edges, never a truth value turned into a number.  NOT decided: "
     "the handshake identities themselves and every numeric value."
 )
 TRUSTED = ["rustc MIR construction", "over-approximated dependence (absence is definite)", "sprs TriMat::from_triplets/to_csr semantics"]
@@ -54,6 +54,57 @@ def degrees_from_edge_lists(ctx, prog, flows, rid, only, consequence):
                     fields.add(f_)
         cache = (cal & {"get_successor_nodes_by_index", "get_predecessor_nodes_by_index"}) | (fields & {"successors_vec", "predecessors_vec"})
         ctx.require(src in cal and not cache, rid, b.short, "%s is computed from %s" % (sfx.split("::")[-1], src), "%s is computed from %s%s: the cache has one entry and one policy weight per neighbour, so %s" % (sfx.split("::")[-1], sorted(cal & {"get_edges_for_node", "get_in_edges_for_node", "get_out_edges_for_node"}) or "no edge list", (" and the adjacency cache " + str(sorted(cache))) if cache else "", consequence), loc_str(b.span))
+
+
+def selfloop_term_counts_every_loop(ctx, prog, flows, rid, consequence):
+    """shared by C09 and C12: on an undirected graph a self-loop is listed ONCE among the node's edges but adds 2 to its
+    degree, so the degree functions add a correction -- and that correction is the NUMBER (resp. the weight SUM) of the
+    self-loops at the node.  A yes/no answer turned into a number (`any(..) as usize`, usize::from(contains_key(..)),
+    `if has_loop {1} else {0}`) is right for one self-loop and short for parallel ones."""
+    ctx.rule(rid, "the self-loop correction of the degree is a count / a sum over the node's edges, never a truth value turned into a number")
+    n = 0
+    for sfx in ("degree::Graph::get_node_degree", "degree::Graph::get_node_weighted_degree"):
+        b = prog.one(sfx)
+        fl = flows.of(b)
+        adds = [s_ for s_ in b.stmts() if s_.k == "assign" and s_.rv.k == "binop" and s_.rv.j["op"] in ("Add", "AddWithOverflow")]
+        for s_ in adds:
+            for o in s_.rv.ops:
+                if o.place is None:
+                    continue
+                sl = flows.slice(b.path, fl._op_reads(o), up=True, down="clos", data_only=True, roots=(b.path,))
+                if not any(bp == b.path and nd[0] == "SRC" and ".".join(f for f in nd[2] if f != "*").endswith("specs.directed") for (bp, nd) in flows.slice(b.path, fl._op_reads(o), up=True, down=False, roots=(b.path,))):
+                    continue
+                n += 1
+                counting, from_bool = set(), []
+                for (bp, nd) in sl:
+                    bb_ = prog.bodies[bp]
+                    if nd[0] == "CALL":
+                        t_ = bb_.blocks[nd[1]].term
+                        nm = t_.callee.short.split("::")[-1] if t_.callee else ""
+                        if nm in ("count", "len", "sum", "fold", "product"):
+                            counting.add(nm)
+                        if nm in ("from", "into", "then_some", "then") and t_.args and t_.args[0].place is not None and t_.args[0].place.ty == "bool":
+                            from_bool.append("%s(<bool>)" % nm)
+                    elif nd[0] == "L" and isinstance(nd[1], int):
+                        for (_b, st) in bb_.assigns_to(nd[1]):
+                            rv = getattr(st, "rv", None)
+                            if rv is None:
+                                continue
+                            if rv.k == "cast" and rv.ops and rv.ops[0].place is not None and rv.ops[0].place.ty == "bool":
+                                from_bool.append("<bool> as %s" % bb_.local_ty(nd[1]))
+                            if rv.k == "binop" and rv.j["op"] in ("Add", "AddWithOverflow"):
+                                # a running counter: x = x + c, possibly through the checked-add pair (t = x + c; x = t.0)
+                                for o2 in rv.ops:
+                                    if o2.place is None:
+                                        continue
+                                    r_ = o2.place.local
+                                    if r_ == nd[1] or any(getattr(d2, "rv", None) is not None and d2.rv.k == "use" and d2.rv.ops and d2.rv.ops[0].place is not None and d2.rv.ops[0].place.local == nd[1] for (_b2, d2) in bb_.assigns_to(r_)):
+                                        counting.add("+=")
+                # a counter kept in a loop: x = x + c  (through the checked-add pair)
+                ctx.require(bool(counting) and not from_bool, rid, "selfloop-term|%s" % b.short, "the self-loop term of %s is a %s over the node's edges" % (sfx.split("::")[-1], "/".join(sorted(counting))),
+                            "the self-loop term of %s %s: a node with k parallel self-loops gets the correction of one, %s" % (sfx.split("::")[-1], ("is a truth value turned into a number (%s)" % ", ".join(sorted(set(from_bool)))) if from_bool else "is not computed by counting or summing the node's edges", consequence), loc_str(s_.span))
+    ctx.floor(rid, "selfloop_terms", n, 2)
+    return n
 
 def run(ctx):
     prog = ctx.prog
@@ -194,6 +245,9 @@ def run(ctx):
 
     # ------------------------------------------------------------------ R-C09-5
     degrees_from_edge_lists(ctx, prog, flows, "R-C09-5", None, "parallel edges are not counted/summed individually")
+
+    # ------------------------------------------------------------------ R-C09-9
+    selfloop_term_counts_every_loop(ctx, prog, flows, "R-C09-9", "so the sum of the degrees is no longer twice the number of edges")
 
     # ------------------------------------------------------------------ R-C09-4
     ctx.rule("R-C09-4", "the self-loop correction of the (weighted) degree depends on specs.directed within the function")
